@@ -125,6 +125,11 @@ func runC02(o Opts) error {
 					copy(m[f.Off:], bs)
 					send(m, class)
 				}
+				if f.Width >= 2 { // byte strings the source itself names, where they fit a field
+					for _, p := range dictBytesOf(f.Width) {
+						mut(p, "source-dictionary")
+					}
+				}
 				switch f.Text {
 				case "bool", "uint8", "byte":
 					pool := bytePool
@@ -155,6 +160,11 @@ func runC02(o Opts) error {
 					for _, p := range datePatterns {
 						mut(p, "date-patterns")
 					}
+					for i := 0; i < 4; i++ {
+						if ft, ok := fewDigitDateTime(r); ok {
+							mut(bcdOfDigits(ft.Format("20060102")), "date-few-digits")
+						}
+					}
 				case "types.DateTime", "*types.DateTime":
 					for _, p := range datePatterns {
 						for _, t := range [][]byte{{0, 0, 0}, {0x23, 0x59, 0x59}, {0x24, 0, 0}, {0x12, 0x60, 0}, {0x12, 0, 0x60}, {0x1a, 0, 0}, {0x12, 0x34, 0x56}} {
@@ -164,6 +174,11 @@ func runC02(o Opts) error {
 						}
 					}
 					mut([]byte{0x20, 0, 0, 0, 0, 0, 0}, "datetime-patterns")
+					for i := 0; i < 6; i++ { // valid date-times written with two or three distinct digits
+						if ft, ok := fewDigitDateTime(r); ok {
+							mut(bcdOfDigits(ft.Format("20060102150405")), "datetime-few-digits")
+						}
+					}
 					// the uninitialised-clock date prefix with other times of day, valid and not
 					for _, t := range [][]byte{{0, 0, 1}, {0x12, 0x34, 0x56}, {0x0a, 0xbc, 0xde}, {0x12, 0x3f, 0}, {0x24, 0, 0}} {
 						mut(append([]byte{0x20, 0, 0, 0}, t...), "datetime-patterns")
@@ -253,10 +268,38 @@ func dstC02(s *Sink, r *Rand) {
 			prev = off
 		}
 		time.Local = loc
+		type stampT struct {
+			d   time.Time
+			tod [3]int
+			ops []string
+		}
+		stamps := []stampT{}
 		for _, d := range days {
 			for _, tod := range [][3]int{{4, 0, 0}, {12, 34, 56}, {23, 59, 59}} {
+				stamps = append(stamps, stampT{d, tod, []string{"GetStatus", "GetTime", "GetEvent"}})
+			}
+		}
+		// the wall-clock times within 100 minutes of each change (as the zone's own clock shows them, so they all exist)
+		for i := 0; i+1 < len(days); i += 2 {
+			from := days[i].AddDate(0, 0, -1)
+			_, o0 := from.In(loc).Zone()
+			for t := from; t.Before(days[i]); t = t.Add(15 * time.Minute) {
+				if _, o := t.In(loc).Zone(); o != o0 {
+					for k := -7; k <= 6; k++ {
+						w := t.Add(time.Duration(k)*15*time.Minute + 7*time.Minute + 30*time.Second).In(loc)
+						civ := time.Date(w.Year(), w.Month(), w.Day(), 12, 0, 0, 0, time.UTC)
+						stamps = append(stamps, stampT{civ, [3]int{w.Hour(), w.Minute(), w.Second()}, []string{[]string{"GetTime", "GetEvent", "GetStatus"}[(k+7)%3]}})
+					}
+					break
+				}
+			}
+		}
+		for _, st := range stamps {
+			d := st.d
+			{
+				tod := st.tod
 				id := genID(r)
-				for _, name := range []string{"GetStatus", "GetTime", "GetEvent"} {
+				for _, name := range st.ops {
 					w := map[string]int{"GetStatus": 8, "GetTime": 4, "GetEvent": 0}[name]
 					var oc OpCase
 					found := false
